@@ -509,19 +509,20 @@ fn main() {
         }
     }
     if args.replay.is_none() {
-        let per = if args.thorough() { 60 } else { 9 };
+        let per = if args.thorough() { 90 } else { 15 };
+        let (max_pop, max_it) = if args.thorough() { (28, 40) } else { (16, 24) };
         for k in 0..per {
             let shape = (k % 3) as u8;
             let spec = gen_spec(&mut rng, shape);
             for s in SO_SOLVERS.iter().chain(MO_SOLVERS.iter()) {
                 let nseeds = if args.thorough() { 2 } else { 2 };
                 for _ in 0..nseeds {
-                    jobs.push(Job { solver: s.to_string(), pop: 5 + rng.usize(8), iters: 1 + rng.usize(12), seed: rng.next_u64() >> 1, spec: spec.clone() });
+                    jobs.push(Job { solver: s.to_string(), pop: 5 + rng.usize(max_pop - 4), iters: 1 + rng.usize(max_it), seed: rng.next_u64() >> 1, spec: spec.clone() });
                 }
             }
         }
     }
-    let results = run_children(&args, &jobs, 6, if args.thorough() { 480 } else { 50 });
+    let results = run_children(&args, &jobs, 6, if args.thorough() { 900 } else { 150 });
 
     let mut req: Vec<String> = vec![];
     let mut req_job: Vec<usize> = vec![];
@@ -588,7 +589,6 @@ fn main() {
     }
     let verdicts = driver::par_batch(&exe, &req, 8);
     for ((ji, line), v) in req_job.iter().zip(req.iter()).zip(verdicts.iter()) {
-        rep.evaluations += 1;
         if v != "ok" {
             let j = &jobs[*ji];
             let shape = if is_degenerate(&j.spec) { "degenerate-bounds" } else { "proper-bounds" };
